@@ -340,7 +340,7 @@ def case(ctx, rng, idx, state):
 if __name__ == "__main__":
     harness.main(
         PROP, "exploration", case, setup_fn=setup,
-        tiers=dict(quick=dict(cases=800, shards=8, time=150), thorough=dict(cases=12000, shards=16, time=900)),
+        tiers=dict(quick=dict(cases=800, shards=8, time=900), thorough=dict(cases=12000, shards=16, time=3000)),
         rule="all 14 Bravais types (primitive cells of the centred ones and the simple = conventional ones) with random "
              "axis ratios, special ratios (accidental shell coincidences, hidden fcc/bcc/cubic symmetry, the "
              "rhombohedral/bct/face-centred lattices of finding F12) and mesh-compensated ratios, other primitive "
